@@ -1,9 +1,76 @@
-(* C17 — theorems are added below as the proofs are completed; see DESIGN.md *)
+(* C17 — interpolated phase is anchored at cyclepoints and monotone between them.
+   Model: Model/Phase.v — exact rational arithmetic in units of a quarter turn (pi/2): rise
+   midpoint -1, peak 0, decay midpoint +1, trough -2 (= -pi; +2 on the branch approaching it).
+   None = NaN.  wf_cps c: along the sorted anchor list every step either advances the phase or
+   wraps into a trough, there are at least two anchors, and the first step, if it wraps into a
+   trough, spans two samples (implied by "consecutive extrema at least two samples apart";
+   first_gap_needed shows it cannot be dropped).  No axioms at all. *)
 From Coq Require Import List Arith Bool ZArith QArith.
 Import ListNotations.
-From ByC Require Import Base.Result Model.Phase.
+From ByC Require Import Base.Result Model.Phase Proofs.Phase.
 
-Theorem C17_placeholder_extrema_overwrite_midpoints : forall tv c i,
-  mem i (c_troughs c) = true -> anchor tv c i = Some tv.
-Proof. intros tv c i H. unfold anchor. now rewrite H. Qed.
-Print Assumptions C17_placeholder_extrema_overwrite_midpoints.
+(* 0 at peaks, -2 (= -pi) at troughs, -1 / +1 (= -+pi/2) at rise / decay midpoints that are not
+   overwritten by an extremum *)
+Theorem C17_anchored_at_cyclepoints : forall c ph i v, wf_cps c -> phase c = Ok ph ->
+  anchor (-2) c i = Some v -> (i < c_n c)%nat ->
+  exists q, onth ph i = Some q /\ (q == inject_Z v)%Q.
+Proof. exact phase_at_anchor. Qed.
+Print Assumptions C17_anchored_at_cyclepoints.
+
+(* within [-pi, pi] (no well-formedness needed) *)
+Theorem C17_range : forall c ph i q, phase c = Ok ph -> onth ph i = Some q -> (-2 <= q <= 2)%Q.
+Proof. exact phase_range. Qed.
+Print Assumptions C17_range.
+
+(* strictly advancing between consecutive cyclepoints; the only decrease is the wrap landing
+   exactly on a trough (from a non-negative phase to -pi) *)
+Theorem C17_monotone_between_cyclepoints : forall c ph i a b, wf_cps c -> phase c = Ok ph ->
+  (first_idx c <= i)%nat -> (S i <= last_idx c)%nat ->
+  onth ph i = Some a -> onth ph (S i) = Some b ->
+  (a < b)%Q \/ (anchor (-2) c (S i) = Some (-2)%Z /\ (0 <= a)%Q /\ (b == -2)%Q).
+Proof. exact phase_monotone_strict. Qed.
+Print Assumptions C17_monotone_between_cyclepoints.
+
+(* finite on the whole span from the first to the last cyclepoint, NaN outside it *)
+Theorem C17_defined_exactly_on_the_span : forall c ph i, wf_cps c -> phase c = Ok ph -> (i < c_n c)%nat ->
+  (onth ph i <> None <-> (first_idx c <= i <= last_idx c)%nat).
+Proof. exact phase_span. Qed.
+Print Assumptions C17_defined_exactly_on_the_span.
+
+Theorem C17_never_fails_on_wellformed_cyclepoints : forall c, wf_cps c -> exists ph, phase c = Ok ph.
+Proof. exact phase_ok. Qed.
+Print Assumptions C17_never_fails_on_wellformed_cyclepoints.
+
+Theorem C17_one_value_per_sample : forall c ph, phase c = Ok ph -> length ph = c_n c.
+Proof. exact phase_length. Qed.
+Print Assumptions C17_one_value_per_sample.
+
+(* linear between adjacent cyclepoints, heading for +2 (= +pi) when the next one is a trough *)
+Theorem C17_linear_between_cyclepoints : forall c ph a0 v0 a1 v1 x, wf_cps c -> phase c = Ok ph ->
+  adjacent (a0, v0) (a1, v1) (anchors (-2) c) -> (a0 <= x < a1)%nat ->
+  exists q, onth ph x = Some q /\ (q == lin a0 v0 a1 (flipv v1) x)%Q.
+Proof. exact phase_between. Qed.
+Print Assumptions C17_linear_between_cyclepoints.
+
+(* the precondition is satisfiable, and its third clause is needed *)
+Theorem C17_wellformed_example :
+  wf_cps {| c_n := 20; c_peaks := [6; 14]%nat; c_troughs := [2; 10]%nat; c_rises := Some [4; 12]%nat; c_decays := Some [8]%nat |}.
+Proof. exact wf_example. Qed.
+Print Assumptions C17_wellformed_example.
+
+(* Legacy: the end mask before the repair *)
+Theorem C17_legacy_all_nan_refuted :
+  phase_legacy {| c_n := 3; c_peaks := [0%nat]; c_troughs := [2%nat]; c_rises := None; c_decays := None |}
+    = Ok [None; None; None] /\
+  phase {| c_n := 3; c_peaks := [0%nat]; c_troughs := [2%nat]; c_rises := None; c_decays := None |}
+    = Ok [Some 0%Q; Some (2 # 2)%Q; Some (-2)%Q] /\
+  ((2 # 2) == 1)%Q.
+Proof. exact phase_legacy_refuted_all_nan. Qed.
+Print Assumptions C17_legacy_all_nan_refuted.
+
+Theorem C17_legacy_extra_finite_sample_refuted :
+  rmap (fun l => onth l 15) (phase_legacy ex_two) = Ok (Some 0%Q) /\
+  rmap (fun l => onth l 15) (phase ex_two) = Ok None /\
+  last (map fst (anchors (-2) ex_two)) 0%nat = 14%nat.
+Proof. exact phase_legacy_refuted_extra_sample. Qed.
+Print Assumptions C17_legacy_extra_finite_sample_refuted.
